@@ -11,7 +11,7 @@ def _unbold_heading_transformer(element: Element) -> None:
     """
     Transformer function to unbold headings where the entire text is bold.
     """
-    if isinstance(element, block.Heading):
+    if isinstance(element, (block.Heading, block.SetextHeading)):
         # Check if the heading consists *only* of a single StrongEmphasis element
         if len(element.children) == 1 and isinstance(element.children[0], inline.StrongEmphasis):
             # Replace the heading's children with the children of the StrongEmphasis element
